@@ -48,6 +48,8 @@ def _(self, attribute):
     requires(self.yaml_node.kind == MAP)
     raises(SeasoningError, when=cnt(self.yaml_node.pairs, attribute,
                                     len(self.yaml_node.pairs)) != 1)
+    # always raised WITH a message (callers read e.args[0])
+    raises_msg(SeasoningError, lambda m: len(m) > 0)
     ensures(cnt(self.yaml_node.pairs, attribute,
                 len(self.yaml_node.pairs)) == 1)
     returns_place(lambda: self.yaml_node.pairs[at(self.yaml_node, attribute)].v)
